@@ -36,6 +36,8 @@ class Hook:
 
 
 class C20System(BuilderSystem):
+    deep = True
+
     cfg = {"decimal_places": 5}
 
     def fresh(self):
